@@ -156,7 +156,11 @@ def main():
             {"name": "stepsim", "path": "harness/checks", "serves_properties": [p for p in ALL if p in CHECKS and CHECKS[p][5] == "stepsim"],
              "kind_free_text": "deterministic step simulator: real rollkit code inside a go1.26 testing/synctest bubble (fake clock), harness is the only scheduler, simulated disk/DA/execution/P2P stores, seeded scenarios, shrinking, exact replay"},
             {"name": "netsim", "path": "harness/netsim", "serves_properties": [p for p in ALL if p in CHECKS and CHECKS[p][5] == "netsim"],
-             "kind_free_text": "whole nodes with real goroutines under the fake clock and the race detector; seeded stimuli/faults/stop instants; schedule-independent oracles"},
+             "kind_free_text": "Manager-level whole-node runs: all background loops as real goroutines under the fake clock and the race detector; seeded stimuli/faults/stop instants; schedule-independent oracles"},
+            {"name": "wholenode", "path": "harness/checks (c13whole, c13restart, c03whole, c04whole, c05whole)", "serves_properties": ["C03", "C04", "C05", "C13"],
+             "kind_free_text": "real node.FullNode / node.LightNode incarnations (real Run: P2P client, go-header stores and gossipsub over a libp2p mocknet, all loops, shutdown) over one durable image per node under the fake clock: stop/kill/start/cut/heal timelines, k-th-durable-write crash families, adversarial gossip peer and third-party sequencer node; no race detector; interleaving by the Go scheduler, replay best-effort"},
+            {"name": "parksched", "path": "harness/sim/parksched.go", "serves_properties": ["C10", "C13"],
+             "kind_free_text": "park-and-release scheduler: real goroutines park at every simulated-datastore operation and are released one at a time from the seeded PRNG or an explicit choice script; blocked tasks are recognised from goroutine states; exact replay of the recorded schedule"},
         ],
         "checks": checks,
         "not_applicable": na,
